@@ -21,6 +21,8 @@ import LfsModel.Gen
 import LfsModel.GenApi
 import LfsModel.ApiReq
 import LfsModel.Checkout
+import LfsModel.LogScan
+import LfsModel.Prune
 open Lfs
 
 namespace Oracle
@@ -476,6 +478,27 @@ def c04 : List String → String
          if want.any (fun w => w.oid == x.1.oid && w.size == x.1.size) then some (toString i) else none))
   | _ => "bad-op"
 
+/-! ### C05 -/
+def natList (s : String) : Option (List Nat) := if s == "-" then some [] else (s.splitOn ",").mapM String.toNat?
+
+def c05 : List String → String
+  | ["logscan", d, log] =>
+    (match unhex log with
+     | some b =>
+       let dir : UInt8 := if d == "-" then 45 else 43
+       let res := LogScan.scanText dir b
+       if res.isEmpty then "-" else
+       String.intercalate "," (res.map fun (n, p) => hex n ++ ":" ++ hex p.oid ++ ":" ++ toString p.size)
+     | none => "bad-op")
+  | ["prune", fl, lo, re, rc, ve] =>
+    (match natList lo, natList re, natList rc, natList ve with
+     | some lo, some re, some rc, some ve =>
+       let b := fun (i : Nat) => (fl.toList.getD i '0') == '1'
+       let o := Pr.prune ⟨b 0, b 1, b 2, b 3⟩ lo re rc ve
+       (if o.halted then "halt " else "ok ") ++ (if o.deleted.isEmpty then "-" else String.intercalate "," (sortStr (o.deleted.map toString)))
+     | _, _, _, _ => "bad-op")
+  | _ => "bad-op"
+
 def answer (line : String) : String :=
   match line.splitOn " " with
   | "C07" :: rest => c07 rest
@@ -493,6 +516,7 @@ def answer (line : String) : String :=
   | "C15" :: rest => c15 rest
   | "C18" :: rest => c18 rest
   | "C04" :: rest => c04 rest
+  | "C05" :: rest => c05 rest
   | ["C01", "mergeout", o, n] => (match unhex o, unhex n with
       | some o, some n => hex (Flt.mergeDriverOutput o n) | _, _ => "bad-op")
   | _ => "bad-op"
